@@ -459,6 +459,51 @@ def dmat(a) -> str:
     return "[" + "; ".join("[" + "; ".join(dd(v) for v in row) + "]" for row in a) + "]"
 
 
+def fparts(a):
+    """integer mantissas and k with a == ints / 2**k exactly"""
+    a = np.asarray(a, dtype=float)
+    if a.ndim == 1:
+        a = a.reshape(-1, 1)
+    if not np.all(np.isfinite(a)):
+        raise ValueError("non-finite value in a matrix")
+    k = 0
+    for v in a.ravel():
+        if v != 0:
+            mant, ex = math.frexp(float(v))
+            mi = int(mant * (1 << 53)); ex -= 53
+            while mi % 2 == 0:
+                mi //= 2; ex += 1
+            k = max(k, -ex)
+    rows = [[int(float(v) * (1 << k)) if abs(v) < 2 ** 900 else int(v) * (1 << k) for v in row] for row in a]
+    for row, arow in zip(rows, a):
+        for iv, v in zip(row, arow):
+            assert iv == float(v) * (2 ** k) or abs(v) >= 2 ** 900
+    return rows, k
+
+
+def _zl(rows) -> str:
+    return "[" + "; ".join("[" + "; ".join(f"({v})%Z" for v in r) + "]" for r in rows) + "]"
+
+
+def fmat(a) -> str:
+    """an LF.of_dyadic literal: the exact values of a matrix of doubles over one power-of-two denominator"""
+    rows, k = fparts(a)
+    return f"(LF.of_dyadic {_zl(rows)} {k}%Z)"
+
+
+def fexp(a) -> str:
+    rows, k = fparts(a)
+    return f"({_zl(rows)}, {k}%Z)"
+
+
+def raw(a) -> str:
+    """(integer mantissas, k): the matrix equals ints / 2^k exactly -- the only matrix literal of the case files"""
+    if isinstance(a, (list, tuple)) and len(a) == 0:
+        return "([], 0%Z)"
+    rows, k = fparts(a)
+    return f"({_zl(rows)}, {k}%Z)"
+
+
 def cmat(a) -> str:
     a = np.asarray(a, dtype=float)
     if a.ndim == 1:
@@ -538,6 +583,18 @@ class Bundle:
         self.ne = len(sv.transition_shocks); self.ny = len(sv.measurement_variables); self.nw = len(sv.measurement_shocks)
         self.sol = m.get_solution()
         self.checks: list[tuple[str, str, object]] = []     # (label, coq term : list nat, decoder info)
+        self.defs: list[tuple[str, str]] = []               # shared raw matrices: (suffix, literal)
+        self.tag = "m"
+
+    def name(self, suffix, value) -> str:
+        """register a raw matrix once per model; the case text defines <tag>_<suffix>"""
+        if all(sfx != suffix for sfx, _ in self.defs):
+            self.defs.append((suffix, raw(value)))
+        return f"{self.tag}_{suffix}"
+
+    def sol_names(self):
+        s = self.sol
+        return {k: self.name("s" + k, getattr(s, k)) for k in SOL_NAMES}
 
     # ---- stage (a)
     def add_solution_check(self):
@@ -546,17 +603,20 @@ class Bundle:
         sy = rec.system
         Ta, u, _ = rec.schur
         nb, nf, ne, ny, nw = self.nb, self.nf, self.ne, self.ny, self.nw
-        exp = [s.T, s.P, s.K, s.X, s.Ua, s.Ta, s.Pa, s.Ka, s.Xa, s.J, s.Ru, s.Z, s.H, s.D, s.Za]
-        args = " ".join(cmat(x) for x in (S, T, Q, Z, sy.C, sy.D, Ta, u, sy.F, sy.G, sy.H, sy.J))
-        term = f"A.check_solution {nb} {nf} {ne} {ny} {nw} {args} [{'; '.join(cmat(x) for x in exp)}]"
+        sn = self.sol_names()
+        ins = [("qS", S), ("qT", T), ("qQ", Q), ("qZ", Z), ("yC", sy.C), ("yD", sy.D), ("hTa", Ta), ("hu", u),
+               ("yF", sy.F), ("yG", sy.G), ("yH", sy.H), ("yJ", sy.J)]
+        args = " ".join(self.name(k, v) for k, v in ins)
+        term = f"A.check_solution {nb} {nf} {ne} {ny} {nw} {args} [{'; '.join(sn[k] for k in SOL_NAMES)}]"
         self.checks.append(("solution", term, SOL_NAMES))
 
     def add_expansion_check(self, forward):
         s = self.sol
         import copy
         exp = copy.deepcopy(s).expand_square_solution(forward)
-        term = (f"(if B.check_expansion {self.nb} {self.nf} {self.ne} {dmat(s.P)} {dmat(s.X)} {dmat(s.J)} {dmat(s.Ru)} "
-                f"{forward} [{'; '.join(dmat(x) for x in exp)}] then [] else [0])")
+        sn = self.sol_names()
+        term = (f"(if B.check_expansion {self.nb} {self.nf} {self.ne} {sn['P']} {sn['X']} {sn['J']} {sn['Ru']} "
+                f"{forward} [{'; '.join(raw(x) for x in exp)}] then [] else [0])")
         self.checks.append(("expansion", term, [f"expand_square_solution({forward})"]))
 
     # ---- stage (c)
@@ -607,15 +667,8 @@ class Bundle:
             except Exception:
                 v = float("nan")
             init.append(v)
-        init = [0.0 if (x != x) else x for x in init]      # NaN only where true_initials is False (zeroed by the code)
-        for ti, x in zip(so.true_initials, [val_ok for val_ok in init]):
-            pass
-
-        def shock_cols(vec, prefix=""):
-            cols = []
-            for p in per:
-                cols.append([series_value(db, prefix + names[t.qid].removeprefix(prefix), p) for t in vec])
-            return cols
+        # a missing initial value may only sit where true_initials is False (those entries are zeroed by the code)
+        init = [0.0 if (x != x and not ti) else x for x, ti in zip(init, so.true_initials)]
         us = [[series_value(db, names[t.qid], p) for t in so.transition_shocks] for p in per]
         vs = [[series_value(db, names[t.qid], p) for t in so.anticipated_shock_values] for p in per]
         ws = [[series_value(db, names[t.qid], p) for t in so.measurement_shocks] for p in per]
@@ -627,11 +680,12 @@ class Bundle:
             exp_xi.append(col)
             exp_y.append([dd(val(out, t, p)) for t in so.measurement_variables])
         ol = lambda col: "[" + "; ".join("None" if c is None else f"Some {c}" for c in col) + "]"
-        vl = lambda cols: "[" + "; ".join(dmat(np.array(c, dtype=float)) if len(c) else "[]" for c in cols) + "]"
+        vl = lambda cols: "[" + "; ".join(raw(np.array(c, dtype=float)) for c in cols) + "]"
+        sn = self.sol_names()
         bl = lambda l: "[" + "; ".join("true" if b else "false" for b in l) + "]"
         term = (f"B.check_simulation {self.nb} {self.nf} {self.ne} {self.ny} {self.nw} {'true' if dev else 'false'} "
-                f"{bl(so.true_initials)} {dmat(s.T)} {dmat(s.P)} {dmat(s.K)} {dmat(s.X)} {dmat(s.J)} {dmat(s.Ru)} "
-                f"{dmat(s.Z)} {dmat(s.H)} {dmat(s.D)} {dmat(np.array(init))} {vl(us)} {vl(vs)} {vl(ws)} "
+                f"{bl(so.true_initials)} {sn['T']} {sn['P']} {sn['K']} {sn['X']} {sn['J']} {sn['Ru']} "
+                f"{sn['Z']} {sn['H']} {sn['D']} {raw(np.array(init))} {vl(us)} {vl(vs)} {vl(ws)} "
                 f"[{'; '.join(ol(c) for c in exp_xi)}] [{'; '.join(ol(c) for c in exp_y)}]")
         lab = ["length"] + [f"xi[{i}]" for i in range(len(per))] + [f"y[{i}]" for i in range(len(per))]
         self.checks.append(("simulation", term, {"labels": lab, "scenario": sc}))
@@ -640,8 +694,11 @@ class Bundle:
 def case_text(bundles) -> str:
     lines = [HEADER]
     k = 0
-    for b in bundles:
+    for bi, b in enumerate(bundles):
+        for sfx, lit in b.defs:
+            lines.append(f"Definition m{bi}_{sfx} : raw := {lit}.")
         for (_lab, term, _info) in b.checks:
+            term = re.sub(r"\bm_(?=[a-zA-Z])", f"m{bi}_", term)
             lines.append(f"Definition c{k} : list nat := {term}.")
             k += 1
     lines.append("Eval vm_compute in [" + "; ".join(f"c{i}" for i in range(k)) + "].")
@@ -688,7 +745,8 @@ def property_residual(spec, m, sc, out, span, Jc=None, V=None, tol=2e-6) -> list
                 for q in per[ti + 1:]:
                     db2[ename(s)][q] = 0.0
                 # anticipated shocks beyond the original span do not exist
-            cspan = (p + 1) >> (p + maxlead)
+            cend = max(ti + maxlead, len(per) - 1)
+            cspan = (p + 1) >> (per[0] + cend)
             for s in range(spec["nshocks"]):
                 for q in cspan:
                     for nm in (ename(s), "ant_" + ename(s)):
@@ -783,9 +841,9 @@ def gen_determinate(rng, max_states):
 def correspondence(ctx) -> CorrResult:
     rng = ctx.rng
     res = CorrResult()
-    n_models = ctx.scale(130, 4000)
+    n_models = ctx.scale(80, 3000)
     n_scen = 3
-    per_shard = ctx.scale(9, 25)
+    per_shard = ctx.scale(20, 60)
     max_states = ctx.scale(8, 10)
     dist = {"models": 0, "states": {}, "forwards": {}, "log_models": 0, "nonlinear_models": 0, "linear_flag": 0,
             "measurement": 0, "skipped": {}, "scenarios": 0, "deviation": 0, "anticipated": 0, "unanticipated": 0,
@@ -831,7 +889,11 @@ def correspondence(ctx) -> CorrResult:
                 res.disagreements.append(Disagreement("simulate raises", {"spec": spec, "scenario": sc},
                                                       "a simulated databox", f"{type(e).__name__}: {e}"[:300]))
                 continue
-            b.add_simulation_check(sc, db, out, span)
+            try:
+                b.add_simulation_check(sc, db, out, span)
+            except ValueError:       # a non-finite cell: left to the falsifier (path:non-finite)
+                dist["skipped"]["non-finite-cell"] = dist["skipped"].get("non-finite-cell", 0) + 1
+                continue
             b.scen.append((sc, db, out, span))
             dist["scenarios"] += 1
             dist["deviation"] += int(sc["deviation"]); dist["anticipated"] += int(bool(sc["v"]))
@@ -846,9 +908,14 @@ def correspondence(ctx) -> CorrResult:
         if len(samples) < 3:
             samples.append({"source": render_source(spec)[0], "system_vector": [(t.qid, t.shift) for t in
                             b.d.system_vectors.transition_variables], "eigenvalues": [str(e) for e in b.sol.eigenvalues]})
+    import time as _time
+    t_impl = _time.time() - ctx.t0
     shards = [bundles[i:i + per_shard] for i in range(0, len(bundles), per_shard)]
     texts = [case_text(bs) for bs in shards]
+    t1 = _time.time()
     results = core.run_cases(ctx, texts)
+    dist["seconds_implementation_side"] = round(t_impl, 1)
+    dist["seconds_coq_side"] = round(_time.time() - t1, 1)
     res.shards = len(texts)
     evals = 0
     for k, (ok, outp) in enumerate(results):
@@ -922,7 +989,7 @@ def falsify(ctx, hints):
         inp = d.get("input") or {}
         if isinstance(inp, dict) and "spec" in inp:
             todo.append((inp["spec"], inp.get("scenario")))
-    n = ctx.scale(45, 700)
+    n = ctx.scale(24, 500)
     for _ in range(n):
         spec, _acc = gen_determinate(rng, ctx.scale(8, 12))
         todo.append((spec, None))
@@ -955,7 +1022,7 @@ def falsify(ctx, hints):
         if nf_rep != nf:
             add("verdict:num-forwards", "number of forward-looking variables differs from the model source",
                 {"spec": spec, "source": src}, nf_rep, nf)
-        scen = [sc0] if sc0 else [gen_scenario(rng, spec) for _ in range(2)]
+        scen = [sc0] if sc0 else [gen_scenario(rng, spec, nper=rng.randint(3, 6))]
         for sc in scen:
             try:
                 db, out, span = run_scenario(m, spec, sc)
@@ -980,7 +1047,7 @@ def falsify(ctx, hints):
         if len(fails) >= 6:
             break
     # 2. models an independent computation classifies as NOT determinate must not be reported STABLE
-    m_bad = ctx.scale(25, 400)
+    m_bad = ctx.scale(16, 300)
     tries = 0
     while info["indeterminate_or_unstable_models"] < m_bad and tries < 40 * m_bad:
         tries += 1
